@@ -540,6 +540,12 @@ func (g *pathGen) join(t toks) []byte {
 
 var nearMisses = []string{
 	// validity rules
+	"$ ? (@.a > 1)[@.i]", "$?(@ > 0).a[0 to @]", "($ ? (@.a == 1))[@]", "strict $.x ? (exists(@.y)).z.*[1, @.n]", "$ ? (@ > 1).a == @", "$ ? (@ > 1) + @", "$[0 ? (@ > 1)][@]",
+	"$ ? (@ > 1) ? (@ < 3)[@]", "$.a ? (@ > 1).b ? (@ < 2).c[@.d]", "$[0][last]", "$[last][0].a[1 to 2].b == last", "$[0 ? (last > 1)].a[last]", "$[0].a ? (@ == last)", "$[0, 1].x.y[@]",
+	"exists($ ? (@ > 1))[@]", "(exists($ ? (@ > 1))) && @ == 1", "$ ? (@ > 1).a starts with @", "$ ? (@ > 1).a like_regex \"a\" && @.b == 1",
+	// surrogate escapes: a high surrogate followed by something that is not a low surrogate
+	"\"\\uD83D\\u{1DE00}\"", "\"\\uD83D\\u{2DC00}\"", "$\"\\u{D800}\\u{0FDFFF}\"", "$.k\\uD83D\\u{2DC00}", "\"\\uD83D\\u{10DE00}\"", "\"\\u{D83D}\\u{1DE00}\"", "\"\\uD83D\\u{DE00}\"", "\"\\u{D83D}\\uDE00\"",
+	"\"\\u{D83D}\\u{DE00}\"", "\"\\uD83D\\u{00DE00}\"", "\"\\uD83D\\uD83D\"", "\"\\uDE00\\uD83D\"", "\"\\uD83D\\u0041\"", "\"\\uD83Dx\"", "\"\\u{DE00}\"", "\"\\u{1F600}\"", "\"\\u{01F600}\"", "$.a ? (@ like_regex \"^\\uD83D\\u{3DE00}$\")",
 	"@", "@.a", "$.a == @", "last", "$.a[last]", "$[last]", "$[$[last]]", "$ ? (@[last] == 1)", "$[0] ? (last == 1)", "last + 1",
 	"$ ? (@ > 1) . a == @", "$[1 to last]", "$[last to 0].b", "$.a ? ($[last] == 1)",
 	// numbers
